@@ -25,19 +25,19 @@ vars == <<l, nbad, hits>>
 \* name of the first clause a single fit violates, "" when it satisfies the contract.
 \* R, M, Q2 are operator arguments so that they are computed once per fit.
 OlsFitClause(X, f, R, M, Q2, prec) ==
-    IF ~OlsNormalEq(X, R, M, Q2, prec) THEN "OlsNormalEq"
-    ELSE IF ~OlsSumZero(X, R, M, Q2, prec) THEN "OlsSumZero"
+    IF ~OlsNormalEq(X, R, LsNormMag(Q2, M), Q2, prec) THEN "OlsNormalEq"
+    ELSE IF ~OlsSumZero(X, R, LsNormMag(Q2, M), Q2, prec) THEN "OlsSumZero"
     ELSE IF ~PredictIdentity(X, f.W, f.B, f.Yhat, M, Q2, prec) THEN "PredictIdentity"
     ELSE ""
 
 RidgeFitClause(e, f, R, M, Q2) ==
     IF e.normalize
-    THEN IF ~OlsSumZero(e.X, R, M, Q2, e.prec) THEN "RidgeStdSumZero"
-         ELSE IF ~RidgeStdGradient(e.X, f.W, R, M, Q2, e.aN, e.aE, e.prec) THEN "RidgeStdGradient"
+    THEN IF ~OlsSumZero(e.X, R, LsNormMag(Q2, M), Q2, e.prec) THEN "RidgeStdSumZero"
+         ELSE IF ~RidgeStdGradient(e.X, f.W, R, LsNormMag(Q2, M), Q2, e.aN, e.aE, e.prec) THEN "RidgeStdGradient"
          ELSE IF ~PredictIdentity(e.X, f.W, f.B, f.Yhat, M, Q2, e.prec) THEN "PredictIdentity"
          ELSE ""
     ELSE IF ~RidgeRawIntercept(f.B) THEN "RidgeRawIntercept"
-         ELSE IF ~RidgeRawGradient(e.X, f.W, R, M, Q2, e.aN, e.aE, e.prec) THEN "RidgeRawGradient"
+         ELSE IF ~RidgeRawGradient(e.X, f.W, R, LsNormMag(Q2, M), Q2, e.aN, e.aE, e.prec) THEN "RidgeRawGradient"
          ELSE IF ~PredictIdentity(e.X, f.W, f.B, f.Yhat, M, Q2, e.prec) THEN "PredictIdentity"
          ELSE ""
 
@@ -68,6 +68,7 @@ HitName(e) ==
     ELSE (IF e.normalize THEN "RidgeStd_" ELSE "RidgeRaw_") \o e.prec
 
 HitNames == {"Ols_f64", "Ols_f32", "RidgeStd_f64", "RidgeStd_f32", "RidgeRaw_f64", "RidgeRaw_f32"}
+ASSUME \A i \in 1..Len(Rec) : ~(Rec[i].ev = "Ridge" /\ Rec[i].normalize /\ Rec[i].prec = "f32")
 
 Step ==
     /\ l <= Len(Rec)
